@@ -640,8 +640,21 @@ func TestC32Replay(t *testing.T) {
 	vstat.Replay(t, "C32", func(raw []byte) error {
 		var probe struct {
 			Conc bool `json:"conc"`
+			Srv  bool `json:"srv"`
 		}
 		if err := json.Unmarshal(raw, &probe); err != nil {
+			return err
+		}
+		if probe.Srv {
+			var sc c32SrvCase
+			if err := json.Unmarshal(raw, &sc); err != nil {
+				return err
+			}
+			err := c32SrvRun(sc, vstat.New(nil, "C32", ""))
+			if errors.Is(err, errC32SrvInconclusive) {
+				fmt.Println("INCONCLUSIVE: server-level case did not settle in time (not a verdict)")
+				return nil
+			}
 			return err
 		}
 		if probe.Conc {
